@@ -970,3 +970,45 @@ def written_text_rule(crate, prop, rule="C04.R9"):
                    "the text written to the file can come from %s instead of the generated module: when the formatter reports `no change` the file is written empty (no notice, no declaration)" % sorted(set(bad)), f, l)
     r.floor = 1
     return r
+
+
+def type_arg_discipline_rule(crate, prop, rule="C11.R8"):
+    """the exporter is generic code about *one* type: whoever is asked about `T` asks its helpers about `T`"""
+    r = Result(rule, "inside the TS default methods, the exporter's generic functions, the dependency visitors and Dependency::from_ty, every call to another generic function of the crate, to a TS method or to TypeId::of passes the caller's own type parameter unchanged; the one projection is export_to_string's `generate_imports::<T::WithoutGenerics>` (imports are computed on the erased type, C03.R3)")
+    EXC = {("export::export_to_string", "export::generate_imports"): "<T as TS>::WithoutGenerics"}
+    n = 0
+    for b in crate.bodies:
+        p0 = b.path
+        if not (p0.startswith("TS::") or p0.startswith("export::") or p0.startswith("Dependency::") or "as TypeVisitor>::visit" in p0):
+            continue
+        own = {"Self"} if p0.startswith("TS::") else set()
+        own |= set(re.findall(r"\b([A-Z]\w?)\b", " ".join(b.raw.get("generics", []) or []))) if b.raw.get("generics") else set()
+        for blk, t in b.calls():
+            if b.is_cleanup(blk) or not t.get("fn"):
+                continue
+            f = t["fn"]
+            p = f.get("path", "")
+            if not (p.startswith("export::") or p.startswith("TS::") or p.startswith("Dependency::") or p.endswith("TypeId::of") or "TypeVisitor::visit" in p):
+                continue
+            args = f.get("args") or []
+            if not args:
+                continue
+            a0 = args[1] if "TypeVisitor::visit" in p and len(args) > 1 else args[0]
+            if a0.startswith("'"):
+                continue
+            n += 1
+            plain = re.match(r"^(Self|[A-Z]\w?)$", a0) is not None
+            concrete = re.match(r"^(&)?std::", a0) is not None or a0.startswith("&")
+            exc = EXC.get((re.sub(r"::\{closure#\d+\}", "", p0), p))
+            ok = plain or concrete or (exc is not None and a0 == exc)
+            r.inst(fn=p0, callee=p, type_argument=a0, ok=ok, exception=bool(exc))
+            if not ok:
+                fl, l = M.user_span(t["span"])
+                r.fail(prop, "type-argument-changed %s -> %s" % (p0, p.split("::")[-1]),
+                       "%s asks %s about `%s` instead of its own type parameter: files, names, identities or dependencies of one type would be computed from another (e.g. from the erased or the concrete instantiation)" % (p0, p, a0), fl, l)
+            if exc is not None and a0 != exc:
+                fl, l = M.user_span(t["span"])
+                r.fail(prop, "type-argument-changed %s -> %s" % (p0, p.split("::")[-1]),
+                       "%s calls %s with `%s`; imports are computed on `%s`" % (p0, p, a0, exc), fl, l)
+    r.floor = 20
+    return r
